@@ -135,7 +135,8 @@ impl<'a, 'b> Generator<'a, 'b> {
                     "__BLOB{{ {} }}",
                     fields
                         .iter()
-                        .map(|(f, v)| format!("{} = {}", f, self.expand(v)))
+                        // Field names are written as strings since they may be Lua keywords.
+                        .map(|(f, v)| format!("[\"{}\"] = {}", f, self.expand(v)))
                         .collect::<Vec<_>>()
                         .join(", ")
                 ),
@@ -236,7 +237,7 @@ impl<'a, 'b> Generator<'a, 'b> {
                 IR::Access(t, a, f) => {
                     if self.usage_count.get(t).unwrap_or(&0) > &0 {
                         let a = self.expand(a);
-                        write!(self.out, "local {} = {}.{}", t.format(), a, f);
+                        write!(self.out, "local {} = {}[\"{}\"]", t.format(), a, f);
                     }
                 }
 
@@ -268,7 +269,7 @@ impl<'a, 'b> Generator<'a, 'b> {
                     if self.usage_count.get(t).unwrap_or(&0) > &0 {
                         let t = self.expand(t);
                         let c = self.expand(c);
-                        write!(self.out, "{}.{} = {}", t, f, c);
+                        write!(self.out, "{}[\"{}\"] = {}", t, f, c);
                     }
                 }
 
